@@ -1,5 +1,4 @@
-(** C05 property theorems (partial: the driver loop is proved against a generator semantics that is an oracle;
-    nested inlineCallbacks and returnValue are outside the language).  For every generator tree [g] (in particular
+(** C05 property theorems (partial: the driver loop is proved against a generator semantics that is an oracle).  For every generator tree [g] (in particular
     [gen_of s] for every structured body [s]), every assignment of outcomes to the awaited Deferreds, every
     canceller behaviour per Deferred, every set of Deferreds fired before the call and every schedule of
     firings and of cancellations of the returned Deferred. *)
@@ -8,13 +7,14 @@ From C05 Require Import Model Proofs.
 Import ListNotations.
 
 (** the values / exceptions observed inside the function and the final result are those of the synchronous
-    reading of the same function, in which every awaited Deferred stands for its outcome: its predetermined one,
+    reading of the same function (nested inlineCallbacks calls being ordinary calls), in which every awaited
+    Deferred stands for its outcome: its predetermined one,
     or — if the function was cancelled while waiting on it — whatever its canceller made of it (CancelledError when
     the canceller does nothing).  In particular they depend neither on the arrival order nor on anything else the
     cancellation protocol does (status.deferred swapping, re-entrant resumption from inside cancel()). *)
 Theorem inline_matches_sync_partial : forall assign canc pre g sched r w,
   run assign canc pre g sched = (Finished r, w) ->
-  sync (eff assign canc (cancelled w)) g [] [] = (r, own (seen w)).
+  sync (eff assign canc (cancelled w)) g [] [] = (r, consumed w, own (seen w)).
 Proof.
   intros assign canc pre g sched r w H.
   rewrite <- (run_sync assign canc (cancelled w) pre g sched); rewrite H; [reflexivity | apply agrees_self].
@@ -64,7 +64,8 @@ Print Assumptions each_deferred_cancelled_at_most_once.
 Theorem result_fires_once : forall assign canc o r w,
   fst (step assign canc (Finished r, w) o) = Finished r /\
   own (seen (snd (step assign canc (Finished r, w) o))) = own (seen w) /\
-  cancelled (snd (step assign canc (Finished r, w) o)) = cancelled w.
+  cancelled (snd (step assign canc (Finished r, w) o)) = cancelled w /\
+  consumed (snd (step assign canc (Finished r, w) o)) = consumed w.
 Proof. exact step_finished. Qed.
 Print Assumptions result_fires_once.
 
@@ -72,7 +73,7 @@ Print Assumptions result_fires_once.
     cancelled while waiting on D[1], whose canceller does nothing *)
 Example nontrivial_program :
   let s := SSeq (STry (SAwait 0) (SMark 7))
-                (SFinally (STry (SLoop 2 (SAwait 1)) (SMark 8)) (SSeq (SAwait 2) (SReturn 5))) in
+                (SFinally (STry (SCall (SSeq (SLoop 2 (SAwait 1)) (SReturnValue 9))) (SMark 8)) (SSeq (SAwait 2) (SReturn 5))) in
   let assign := fun d => match d with 0 => Exc (EUser 3) | _ => Val (VInt (Z.of_nat d)) end in
   let p := run assign (fun _ => CNothing) [2] (gen_of s) [SFire 0; SCancel; SFire 1] in
   fst p = Finished (Val (VInt 5))
